@@ -22,32 +22,37 @@ def langOk (l : Lang) : Bool :=
   (match l.attrs with | some t => t.all attrRowRange && t.all (fun r => !dtRow l.id r || (r.value.getD []).isEmpty)
                       | none => true) &&
   (match l.values with | some t => t.all valRowRange | none => true) &&
-  (match l.exts with | some _ => isWv l.id | none => true)
+  (match l.exts with | some _ => isWv l.id | none => true) &&
+  (decide (0 < l.pub.wbxmlId) && decide (l.pub.wbxmlId < 4294967296))
+
+theorem langOk_pub {l : Lang} (h : langOk l = true) : 0 < l.pub.wbxmlId ∧ l.pub.wbxmlId < 4294967296 := by
+  simp only [langOk, Bool.and_eq_true, decide_eq_true_eq] at h
+  exact h.2
 
 theorem langOk_tags {l : Lang} (h : langOk l = true) {t} (ht : l.tags = some t) {r} (hr : r ∈ t) :
     tagRowRange r = true := by
   simp only [langOk, ht, Bool.and_eq_true, List.all_eq_true] at h
-  exact h.1.1.1 r hr
+  exact h.1.1.1.1 r hr
 
 theorem langOk_attrs {l : Lang} (h : langOk l = true) {t} (ht : l.attrs = some t) {r} (hr : r ∈ t) :
     attrRowRange r = true ∧ (dtRow l.id r = true → r.value.getD [] = []) := by
   simp only [langOk, ht, Bool.and_eq_true, List.all_eq_true] at h
-  refine ⟨h.1.1.2.1 r hr, ?_⟩
+  refine ⟨h.1.1.1.2.1 r hr, ?_⟩
   intro hd
-  have := h.1.1.2.2 r hr
+  have := h.1.1.1.2.2 r hr
   simp only [hd, Bool.not_true, Bool.false_or, List.isEmpty_iff] at this
   exact this
 
 theorem langOk_values {l : Lang} (h : langOk l = true) {t} (ht : l.values = some t) {r} (hr : r ∈ t) :
     valRowRange r = true := by
   simp only [langOk, ht, Bool.and_eq_true, List.all_eq_true] at h
-  exact h.1.2 r hr
+  exact h.1.1.2 r hr
 
 theorem langOk_exts {l : Lang} (h : langOk l = true) (he : l.exts.isSome = true) : isWv l.id = true := by
   simp only [langOk, Bool.and_eq_true] at h
   cases hx : l.exts with
   | none => simp [hx] at he
-  | some x => simpa [hx] using h.2
+  | some x => simpa [hx] using h.1.2
 
 theorem isWv_not_isWml (id : Nat) (h : isWv id = true) : isWml id = false := by
   simp only [isWv, Bool.or_eq_true, beq_iff_eq] at h
@@ -62,10 +67,54 @@ structure Compat (c : WCfg) (tbl : List StrEntry) (ctx : Ctx) : Prop where
 theorem Compat.mono {c : WCfg} {tbl tbl' : List StrEntry} {ctx : Ctx} (h : Compat c tbl' ctx) (hp : tbl <+: tbl') :
     Compat c tbl ctx := ⟨h.lang, h.cs, fun e he => h.offs e (hp.subset he)⟩
 
+/-! ### Opaque data
+
+  `Doc.WF` asks of every OPAQUE token that the language's typed-content rule be defined on it. For
+  the languages below there is no such rule (content opaque = the octets, no typed attribute
+  values), so any opaque shorter than 2^32 octets is well-formed; for the others (Wireless Village,
+  DRMREL, SyncML, SI, EMN, OTA) the proofs ask for outputs without OPAQUE. -/
+
+/-- Languages without typed content and without typed attribute values. -/
+def untypedLang (id : Nat) : Bool :=
+  !isWv id && !(id == 1801) && !isSyncml id && !(id == 1301) && !(id == 1701) && !(id == 1901)
+
+/-- Languages without typed attribute values (`%Datetime` of SI / EMN, OTA opaque values). -/
+def noTypedAttr (id : Nat) : Bool := !(id == 1301) && !(id == 1701) && !(id == 1901)
+
+theorem untyped_noTypedAttr (id : Nat) (h : untypedLang id = true) : noTypedAttr id = true := by
+  simp only [untypedLang, noTypedAttr, Bool.and_eq_true] at h ⊢
+  exact ⟨⟨h.1.1.2, h.1.2⟩, h.2⟩
+
+theorem noTypedAttr_dt (id : Nat) (h : noTypedAttr id = true) (r : AttrRow) : dtRow id r = false := by
+  simp only [noTypedAttr, Bool.and_eq_true, Bool.not_eq_true'] at h
+  simp [dtRow, h.1.1, h.1.2]
+
+theorem untyped_content (id : Nat) (h : untypedLang id = true) (own : Option TagRow) (d : Bytes) :
+    decodeOpaqueContent id own d = .ok d := by
+  simp only [untypedLang, Bool.and_eq_true, Bool.not_eq_true', beq_eq_false_iff_ne, ne_eq] at h
+  unfold decodeOpaqueContent
+  simp [h.1.1.1.1.1, h.1.1.1.1.2, h.1.1.1.2]
+
+/-- The condition under which the opaques `ds` of an output are known to be well-formed. -/
+def OpqCond (c : WCfg) (ds : List Bytes) : Prop :=
+  ds = [] ∨ (untypedLang c.lang.id = true ∧ ∀ d ∈ ds, d.length < 4294967296)
+
+theorem OpqCond.nil (c : WCfg) : OpqCond c [] := Or.inl rfl
+
+theorem OpqCond.left {c : WCfg} {a b : List Bytes} (h : OpqCond c (a ++ b)) : OpqCond c a := by
+  rcases h with h | ⟨hu, hs⟩
+  · exact Or.inl (List.append_eq_nil_iff.mp h).1
+  · exact Or.inr ⟨hu, fun d hd => hs d (List.mem_append_left _ hd)⟩
+
+theorem OpqCond.right {c : WCfg} {a b : List Bytes} (h : OpqCond c (a ++ b)) : OpqCond c b := by
+  rcases h with h | ⟨hu, hs⟩
+  · exact Or.inl (List.append_eq_nil_iff.mp h).2
+  · exact Or.inr ⟨hu, fun d hd => hs d (List.mem_append_right _ hd)⟩
+
 /-! ### Content leaves -/
 
 theorem leaf_wf (c : WCfg) (tbl) (ctx : Ctx) (hc : Compat c tbl ctx) (hl : langOk c.lang = true)
-    (own slot) (pg : Pages) (it : Item) (h : Leaf c tbl it) (hno : opqsItem it = []) :
+    (own slot) (pg : Pages) (it : Item) (h : Leaf c tbl it) (hno : OpqCond c (opqsItem it)) :
     wfItem ctx own slot pg it = true := by
   cases h with
   | inl s hs => rw [wfItem_str]; simp [wfStr, hc.cs, hs]
@@ -79,21 +128,27 @@ theorem leaf_wf (c : WCfg) (tbl) (ctx : Ctx) (hc : Compat c tbl ctx) (hl : langO
     simp only [wfSw, wfExt, isWv_not_isWml _ hwv, hwv, hx, Bool.true_and, Bool.false_eq_true, ↓reduceIte,
       Bool.and_eq_true, decide_eq_true_eq, beq_self_eq_true]
     omega
-  | opq d => rw [opqsItem_opaque] at hno; cases hno
+  | opq d =>
+    rw [opqsItem_opaque] at hno
+    rcases hno with hno | ⟨hu, hs⟩
+    · cases hno
+    · rw [wfItem_opaque]
+      have hu' : untypedLang ctx.lang.id = true := by rw [hc.lang]; exact hu
+      simp [opaqueText, untyped_content _ hu', hs d (List.mem_singleton.mpr rfl)]
 
 theorem leaves_wf (c : WCfg) (tbl) (ctx : Ctx) (hc : Compat c tbl ctx) (hl : langOk c.lang = true)
-    (own slot) (pg : Pages) (items : List Item) (h : ∀ it ∈ items, Leaf c tbl it) (hno : opqsItems items = []) :
+    (own slot) (pg : Pages) (items : List Item) (h : ∀ it ∈ items, Leaf c tbl it) (hno : OpqCond c (opqsItems items)) :
     wfItems ctx own slot pg items = true := by
   induction items with
   | nil => rw [wfItems]
   | cons it rest ih =>
-    rw [opqsItems_cons, List.append_eq_nil_iff] at hno
+    rw [opqsItems_cons] at hno
     have hit := h it List.mem_cons_self
-    rw [wfItems_cons, leaf_wf c tbl ctx hc hl own slot pg it hit hno.1, Bool.true_and,
+    rw [wfItems_cons, leaf_wf c tbl ctx hc hl own slot pg it hit hno.left, Bool.true_and,
       leaf_page c tbl ctx own pg it hit]
     have : slotAfter slot it = slot := by cases hit <;> rfl
     rw [this]
-    exact ih (fun x hx => h x (List.mem_cons_of_mem _ hx)) hno.2
+    exact ih (fun x hx => h x (List.mem_cons_of_mem _ hx)) hno.right
 
 /-! ### Attribute value pieces -/
 
